@@ -110,7 +110,7 @@ class FakeS3:
             if request.method == 'HEAD':
                 return httpx.Response(200, headers={'content-length': str(len(data))})
             if k == 'drop':
-                return httpx.Response(200, headers={'content-length': str(len(data))}, stream=_DropStream(data, 4, self.plan.drop_after))
+                return httpx.Response(200, headers={'content-length': str(len(data))}, stream=_DropStream(data, 16, self.plan.drop_after))
             return httpx.Response(200, content=data)
         if request.method == 'DELETE':
             self.objs.pop(key, None)
@@ -177,7 +177,7 @@ class FakeB2:
             if request.method == 'HEAD':
                 return httpx.Response(200, headers={'content-length': str(len(data))})
             if k == 'drop':
-                return httpx.Response(200, headers={'content-length': str(len(data))}, stream=_DropStream(data, 4, self.plan.drop_after))
+                return httpx.Response(200, headers={'content-length': str(len(data))}, stream=_DropStream(data, 16, self.plan.drop_after))
             return httpx.Response(200, content=data)
         if url.endswith('/b2_list_file_names'):
             p = json.loads(body)
